@@ -13,7 +13,8 @@ Record c07_obs := mkObs {
   o_nb1 : str; o_nb2 : str;   (* URL(base).normalize() once / twice *)
   o_nr1 : str; o_nr2 : str;   (* URL(ref1).normalize() once / twice *)
   o_ref1 : str; o_ref2 : str; (* the references as handed over: the text itself, or what the URL object prints *)
-  o_parts1 : list str; o_parts2 : list str   (* list(result.path_parts) of the two results: the DECODED segments *)
+  o_parts1 : list str; o_parts2 : list str;  (* list(result.path_parts) of the two results: the DECODED segments *)
+  o_q1 : list (str * option str); o_q2 : list (str * option str)   (* result.query_params.items(multi=True): decoded pairs *)
 }.
 
 Record c07_case := mkCase {
@@ -30,7 +31,8 @@ Definition obs_eqb (a b : c07_obs) : bool :=
   str_eqb (o_nb1 a) (o_nb1 b) && str_eqb (o_nb2 a) (o_nb2 b) &&
   str_eqb (o_nr1 a) (o_nr1 b) && str_eqb (o_nr2 a) (o_nr2 b) &&
   str_eqb (o_ref1 a) (o_ref1 b) && str_eqb (o_ref2 a) (o_ref2 b) &&
-  list_eqb str_eqb (o_parts1 a) (o_parts1 b) && list_eqb str_eqb (o_parts2 a) (o_parts2 b).
+  list_eqb str_eqb (o_parts1 a) (o_parts1 b) && list_eqb str_eqb (o_parts2 a) (o_parts2 b) &&
+  pairs_eqb (o_q1 a) (o_q1 b) && pairs_eqb (o_q2 a) (o_q2 b).
 
 (* what the harness does for c_unrooted: URL.from_parts(scheme, host, path_parts[1:], query_params,
    fragment, port, username, password) when there is a host and the parsed path is ('', s, ...) with s non-empty *)
@@ -59,7 +61,7 @@ Definition c07_model (c : c07_case) : option c07_obs :=
                           (to_text nr) (to_text (normalize nr))
                           (if c_as_url1 c then to_text r else c_ref1 c)
                           (if c_as_url2 c then to_text r2 else c_ref2 c)
-                          (u_path n1) (u_path n2))
+                          (u_path n1) (u_path n2) (u_query n1) (u_query n2))
           | None => None
           end
       | None => None
